@@ -280,8 +280,9 @@ JudgeVerify(e) ==
         (* a VerifyingKey object that lives across calls (harness): absent in events of other recorders *)
         reSig == IF "vk_reused_sig" \in DOMAIN e THEN e.vk_reused_sig ELSE "na"
         reRef == IF "vk_reused_ref" \in DOMAIN e THEN e.vk_reused_ref ELSE "na"
-        outcomes == <<e.res, e.vk_from, e.sig_from, e.vk_sig, e.vk_ref, reSig, reRef>>
-        anyPanic == \E i \in 1..7 : outcomes[i] = "panic"
+        poked == IF "vk_poked" \in DOMAIN e THEN e.vk_poked ELSE "na"      \* a VerifyingKey whose bytes field was overwritten
+        outcomes == <<e.res, e.vk_from, e.sig_from, e.vk_sig, e.vk_ref, reSig, reRef, poked>>
+        anyPanic == \E i \in 1..8 : outcomes[i] = "panic"
         (* "na": the recorder did not exercise this entry point (call tracing sees the free function only) *)
         entry(kind, got) == IF got = "panic" \/ (got = "na" /\ Recorded(e)) THEN <<>>
                             ELSE IF exp THEN CmpVal(kind, "ok", got)
@@ -295,7 +296,7 @@ JudgeVerify(e) ==
         relaxed == "meta" \in DOMAIN e /\ "relaxed_beyond_limits" \in DOMAIN e.meta
     IN  IF relaxed THEN
             (IF anyPanic THEN <<Verdict("panic", want, e.panic)>> ELSE <<>>)
-            \o (IF ~exp /\ \E i \in {1, 4, 5, 6, 7} : outcomes[i] = "ok" THEN <<Verdict("verify_outcome", "err", "ok")>> ELSE <<>>)
+            \o (IF ~exp /\ \E i \in {1, 4, 5, 6, 7, 8} : outcomes[i] = "ok" THEN <<Verdict("verify_outcome", "err", "ok")>> ELSE <<>>)
         ELSE
         (IF anyPanic THEN <<Verdict("panic", want, e.panic)>> ELSE <<>>)
         \o sym
@@ -304,6 +305,7 @@ JudgeVerify(e) ==
         \o entry("verify_vk_ref", e.vk_ref)
         \o (IF reSig = "na" THEN <<>> ELSE entry("verify_vk_reused_sig", reSig))
         \o (IF reRef = "na" THEN <<>> ELSE entry("verify_vk_reused_ref", reRef))
+        \o (IF poked = "na" THEN <<>> ELSE entry("verify_vk_poked", poked))
         \o (IF exp /\ e.vk_from \notin {"ok", "panic"} /\ ~Recorded(e) THEN <<Verdict("vk_from_bytes", "ok", e.vk_from)>> ELSE <<>>)
         \o (IF exp /\ e.sig_from \notin {"ok", "panic"} /\ ~Recorded(e) THEN <<Verdict("sig_from_bytes", "ok", e.sig_from)>> ELSE <<>>)
 
